@@ -26,7 +26,8 @@ from harness.models import parallel as pref
 LEVEL = "exploration"
 RULE = ("(a) run_parallel with gated thunks: tasks 0-7 (int or tuple keys, duplicates), every failing subset, workers "
         "0-8, five order_key shapes; the controller realises every completion order reachable with w workers "
-        "(all of them for n<=5 x all failing subsets x all worker counts; sampled for n=6,7; free-running pools under "
+        "(all of them for n<=5 x all failing subsets x worker counts 0-8 [quick tier: for n=5 the counts 6,7 are left out, "
+        "same pool size as 5 and 8; thorough tier: n<=6, all counts]; sampled for n=6,7; free-running pools under "
         "switch interval 1e-6). Non-trivial = >=2 tasks and thunk completion order != submission order. "
         "(b) T1: 2-6 generated graphs, 1-3 calls on one process cache, parallel (2-8 workers, forced completion "
         "order) vs sequential. Non-trivial = >=2 graphs seeded and completion order != graph order. "
@@ -337,10 +338,14 @@ def _reachable_orders(n, w):
     return [seen[o] for o in sorted(seen)]
 
 
-def enum_cases(max_n=5):
+def enum_cases(max_n=5, skip_redundant=False):
+    """All (n, workers, reachable completion order, failing subset). skip_redundant (quick tier): for the largest n the
+    worker counts strictly between n and 8 are left out - they give the same pool size (= n) as workers=n and workers=8."""
     idx = 0
     for n in range(0, max_n + 1):
         for w in range(0, 9):
+            if skip_redundant and n == max_n and n < w < 8:
+                continue
             for prio in _reachable_orders(n, w):
                 for mask in range(1 << n):
                     fails = [("ValueError", "KeyError", "_Boom")[(i + idx) % 3] if (mask >> i) & 1 else None for i in range(n)]
@@ -349,10 +354,12 @@ def enum_cases(max_n=5):
                     idx += 1
 
 
-def sub_par_exhaustive(rec, seed, shard, nshards, max_n=5):
+def sub_par_exhaustive(rec, seed, shard, nshards, max_n=5, skip_redundant=False):
     total = 0
     nt_total = 0
-    for idx, case in enum_cases(max_n):
+    rec.note("space", f"n=0..{max_n} x workers 0..8" + (f" (n={max_n}: workers 0..{max_n} and 8)" if skip_redundant else "") +
+             " x every completion order reachable with that pool size x every failing subset")
+    for idx, case in enum_cases(max_n, skip_redundant):
         if idx % nshards != shard:
             continue
         total += 1
@@ -590,10 +597,11 @@ def run_t1_calls(case, parallel: bool):
     n = len(case["order"])
     out = []
     if not parallel:
+        state = {"store": inner, "active_graphs": list(case["order"])}  # one engine state for all calls (it owns the stage cache)
         for call in case["calls"]:
             ctx = SimpleNamespace(cfg=cfg, config=cfg, agent_id="A", turn_id=1)
             try:
-                res = t1mod.t1_propagate(ctx, {"store": inner, "active_graphs": list(case["order"])}, call["text"])
+                res = t1mod.t1_propagate(ctx, state, call["text"])
             except Exception as e:  # noqa: BLE001 - compared with the parallel run below
                 out.append(("exc", type(e).__name__, str(e)))
                 continue
@@ -601,13 +609,13 @@ def run_t1_calls(case, parallel: bool):
         return out, None
     store = GatedStore(inner, {g: i for i, g in enumerate(case["order"])})
     baseline = set(threading.enumerate())
+    state = {"store": store, "active_graphs": list(case["order"])}
     with _Fanout(t1mod, enter_in_wrapper=False) as fan:
         for call in case["calls"]:
             gate = Gate(n)
             store.gate = gate
             fan.gate = gate
             ctx = SimpleNamespace(cfg=cfg, config=cfg, agent_id="A", turn_id=1)
-            state = {"store": store, "active_graphs": list(case["order"])}
             outcome, info = drive(gate, lambda: t1mod.t1_propagate(ctx, state, call["text"]), min(int(case["workers"]), n), call["prio"])
             store.gate = None
             if info["early_return"]:
@@ -948,7 +956,7 @@ def replay_t2(case):
 
 
 SUBCHECKS = [
-    Sub("par_exhaustive", sub_par_exhaustive, quick={"max_n": 5}, thorough={"max_n": 6}, shards_quick=8, shards_thorough=16,
+    Sub("par_exhaustive", sub_par_exhaustive, quick={"max_n": 5, "skip_redundant": True}, thorough={"max_n": 6}, shards_quick=8, shards_thorough=16,
         exhaustive=True, replay=replay_par),
     Sub("par_sampled", sub_par_sampled, quick={"n": 300}, thorough={"n": 6000}, shards_quick=2, shards_thorough=8, replay=replay_par),
     Sub("par_free", sub_par_free, quick={"n": 150}, thorough={"n": 3000}, shards_quick=2, shards_thorough=8, replay=replay_par),
